@@ -188,4 +188,261 @@ theorem core_newer (p : Tbl → Bool) (U TB new : List Tbl)
       · exact h.1 ea hea en her hk
       · exact absurd hk.symm (h.2 hpr hpa' en her ea hea)
 
+/-! ## The shape of a level list around the target level -/
+
+theorem modify_append_length {α : Type} (xs : List α) (y : α) (ys : List α) (f : α → α) :
+    (xs ++ y :: ys).modify xs.length f = xs ++ f y :: ys := by
+  induction xs with
+  | nil => simp
+  | cons x xs ih => simp only [List.cons_append, List.length_cons, List.modify_succ_cons, ih]
+
+theorem levels_split {L : Levels} {lvl : Nat} (h1 : 1 ≤ lvl) (h2 : lvl < L.length) :
+    ∃ l0 D1 Lv D2, L = l0 :: (D1 ++ Lv :: D2) ∧ D1.length + 1 = lvl := by
+  cases L with
+  | nil => simp at h2
+  | cons l0 D =>
+    obtain ⟨n, rfl⟩ : ∃ n, lvl = n + 1 := ⟨lvl - 1, by omega⟩
+    have hn : n < D.length := by simpa using h2
+    refine ⟨l0, D.take n, D[n], D.drop (n + 1), ?_, ?_⟩
+    · rw [← List.drop_eq_getElem_cons hn, List.take_append_drop]
+    · simp [List.length_take]; omega
+
+theorem shape_getD (l0 : List Tbl) (D1 : List (List Tbl)) (Lv : List Tbl) (D2 : List (List Tbl)) :
+    (l0 :: (D1 ++ Lv :: D2)).getD (D1.length + 1) [] = Lv := by
+  simp [List.getD_eq_getElem?_getD]
+
+theorem shape_take (l0 : List Tbl) (D1 : List (List Tbl)) (Lv : List Tbl) (D2 : List (List Tbl)) :
+    (l0 :: (D1 ++ Lv :: D2)).take (D1.length + 1) = l0 :: D1 := by
+  simp
+
+theorem shape_drop (l0 : List Tbl) (D1 : List (List Tbl)) (Lv : List Tbl) (D2 : List (List Tbl)) :
+    (l0 :: (D1 ++ Lv :: D2)).drop (D1.length + 1 + 1) = D2 := by
+  simp
+
+theorem applyCS_shape (l0 : List Tbl) (D1 : List (List Tbl)) (Lv : List Tbl) (D2 : List (List Tbl))
+    (rm : List Nat) (new : List Tbl)
+    (hall : ∀ t ∈ Lv, rmP rm t = true) (hnone : ∀ t ∈ D2.flatten, rmP rm t = false) :
+    addAt (removeIds rm (l0 :: (D1 ++ Lv :: D2))) (D1.length + 1) new
+      = l0.filter (fun t => !rmP rm t) :: (D1.map (List.filter (fun t => !rmP rm t)) ++ new :: D2) := by
+  have hLv : Lv.filter (fun t => !rmP rm t) = [] := by
+    rw [List.filter_eq_nil_iff]; intro t ht; simp [hall t ht]
+  have hD2 : D2.map (List.filter (fun t => !rmP rm t)) = D2 := by
+    have : ∀ l ∈ D2, List.filter (fun t => !rmP rm t) l = l := by
+      intro l hl
+      rw [List.filter_eq_self]
+      intro t ht
+      simp [hnone t (List.mem_flatten.mpr ⟨l, hl, ht⟩)]
+    calc D2.map (List.filter (fun t => !rmP rm t)) = D2.map id := List.map_congr_left this
+      _ = D2 := List.map_id _
+  have hlen : (D1.map (List.filter (fun t => !rmP rm t))).length = D1.length := List.length_map _
+  show ((l0 :: (D1 ++ Lv :: D2)).map (List.filter (fun t => !rmP rm t))).modify (D1.length + 1) (· ++ new) = _
+  simp only [List.map_cons, List.map_append, List.modify_succ_cons]
+  rw [← hlen, modify_append_length, hLv, hD2]
+  simp
+
+/-! ## Validity of the levels and the main theorem about safe change sets -/
+
+/-- the part of the C07 refinement invariant that speaks about the level list -/
+structure WeakValid (L : Levels) : Prop where
+  sorted : ∀ t ∈ L.flatten, SortedRun t.run
+  deep : ∀ l ∈ L.tail, RangeUnique l
+  newer : (readOrder L).Pairwise NewerT
+
+theorem lookup_append (a b : Run) (k : Bytes) :
+    (a ++ b).lookup k = match a.lookup k with
+      | some e => some e
+      | none => b.lookup k := by
+  induction a with
+  | nil => rfl
+  | cons x xs ih =>
+    simp only [List.cons_append, Run.lookup]
+    split
+    · rfl
+    · exact ih
+
+theorem hit_eq_lookup_cat (ts : List Tbl) (k : Bytes) : hit ts k = (cat ts).lookup k := by
+  induction ts with
+  | nil => rfl
+  | cons t ts ih =>
+    show hit (t :: ts) k = (t.run ++ cat ts).lookup k
+    rw [hit_cons, lookup_append, ih]
+
+theorem cat_mkTables (n : Nat) (add : List Run) : cat (mkTables n add) = add.flatten := by
+  unfold cat
+  rw [List.flatMap_def, mkTables_map_run]
+
+theorem mkTables_run_mem {n : Nat} {add : List Run} {t : Tbl} (h : t ∈ mkTables n add) : t.run ∈ add := by
+  have : t.run ∈ (mkTables n add).map (·.run) := List.mem_map.mpr ⟨t, h, rfl⟩
+  rwa [mkTables_map_run] at this
+
+theorem endKey_mem {t : Tbl} (h : t.run ≠ []) : ∃ e ∈ t.run, t.endKey = e.key := by
+  refine ⟨t.run.getLast h, List.getLast_mem h, ?_⟩
+  unfold Tbl.endKey
+  rw [List.getLast?_eq_some_getLast h]
+  rfl
+
+theorem startKey_mem {t : Tbl} (h : t.run ≠ []) : ∃ e ∈ t.run, t.startKey = e.key := by
+  unfold Tbl.startKey
+  cases hr : t.run with
+  | nil => exact absurd hr h
+  | cons x xs => exact ⟨x, List.mem_cons_self, rfl⟩
+
+theorem ordered_of_sorted_cat {l : List Tbl} (hne : ∀ t ∈ l, t.run ≠ []) (h : SortedRun (cat l)) :
+    l.Pairwise (fun a b => Bytes.lt a.endKey b.startKey = true) := by
+  induction l with
+  | nil => exact List.Pairwise.nil
+  | cons t l ih =>
+    have h' : SortedRun (t.run ++ cat l) := h
+    have ⟨_, h2, h3⟩ := List.pairwise_append.mp h'
+    refine List.pairwise_cons.mpr ⟨?_, ih (fun x hx => hne x (List.mem_cons_of_mem _ hx)) h2⟩
+    intro b hb
+    obtain ⟨ea, hea, hka⟩ := endKey_mem (hne t List.mem_cons_self)
+    obtain ⟨eb, heb, hkb⟩ := startKey_mem (hne b (List.mem_cons_of_mem _ hb))
+    rw [hka, hkb]
+    exact h3 ea hea eb (List.mem_flatMap.mpr ⟨b, hb, heb⟩)
+
+theorem rangeUnique_of_ordered {l : List Tbl} (h : l.Pairwise (fun a b => Bytes.lt a.endKey b.startKey = true)) :
+    RangeUnique l := by
+  refine List.Pairwise.imp ?_ h
+  intro a b hlt k ⟨ha, hb⟩
+  unfold Tbl.rangeContainsKey Gen.tblRangeContainsKey at ha hb
+  simp only [Bool.and_eq_true, decide_eq_true_eq] at ha hb
+  have h1 := (cmpInt_ge_iff a.endKey k).mp ha.2     -- ¬ endKey a < k
+  have h2 := (cmpInt_le_iff b.startKey k).mp hb.1   -- ¬ startKey b > k
+  -- endKey a < startKey b, k ≤ endKey a, startKey b ≤ k
+  rcases Bytes.lt_or_eq_or_gt k b.startKey with h3 | h3 | h3
+  · simp only [Bytes.lt, beq_iff_eq] at h3
+    exact h2 (Bytes.cmp_lt_iff_gt.mp h3)
+  · subst h3
+    simp only [Bytes.lt, beq_iff_eq] at hlt
+    exact h1 hlt
+  · have := Bytes.lt_trans hlt h3
+    simp only [Bytes.lt, beq_iff_eq] at this
+    exact h1 this
+
+theorem mkTables_single_empty (n : Nat) : mkTables n [[]] = [⟨n, []⟩] := by
+  simp [mkTables]
+
+theorem ordered_new {n : Nat} {add : List Run} (hs : SortedRun add.flatten)
+    (hc : (∀ r ∈ add, r ≠ []) ∨ add = [[]]) :
+    (mkTables n add).Pairwise (fun a b => Bytes.lt a.endKey b.startKey = true) := by
+  cases hc with
+  | inl hne =>
+    apply ordered_of_sorted_cat
+    · intro t ht; exact hne _ (mkTables_run_mem ht)
+    · rw [cat_mkTables]; exact hs
+  | inr he => subst he; rw [mkTables_single_empty]; exact List.pairwise_singleton _ _
+
+/-- the pieces a safe change set decomposes into -/
+theorem safe_core {L : Levels} {rm : List Nat} {lvl : Nat} {add : List Run} (n : Nat)
+    (hv : WeakValid L) (hs : SafeCS L rm lvl add) :
+    (∀ k, hit (readOrder (applyCS L n ⟨rm, lvl, add⟩)) k = hit (readOrder L) k) ∧
+    WeakValid (applyCS L n ⟨rm, lvl, add⟩) ∧
+    (∀ t' ∈ (applyCS L n ⟨rm, lvl, add⟩).flatten, ∀ e ∈ t'.run, ∃ t ∈ L.flatten, e ∈ t.run) ∧
+    (∃ l0 D1 Lv D2, L = l0 :: (D1 ++ Lv :: D2) ∧ D1.length + 1 = lvl ∧
+      applyCS L n ⟨rm, lvl, add⟩ =
+        l0.filter (fun t => !rmP rm t) :: (D1.map (List.filter (fun t => !rmP rm t)) ++ mkTables n add :: D2)) := by
+  obtain ⟨l0, D1, Lv, D2, rfl, rfl⟩ := levels_split hs.lvl_pos hs.lvl_lt
+  have hall : ∀ t ∈ Lv, rmP rm t = true := by
+    have := hs.target_all; rwa [shape_getD] at this
+  have hnone : ∀ t ∈ D2.flatten, rmP rm t = false := by
+    have := hs.below_none; rwa [shape_drop] at this
+  have hshape := applyCS_shape l0 D1 Lv D2 rm (mkTables n add) hall hnone
+  have hL' : applyCS (l0 :: (D1 ++ Lv :: D2)) n ⟨rm, D1.length + 1, add⟩ =
+      l0.filter (fun t => !rmP rm t) :: (D1.map (List.filter (fun t => !rmP rm t)) ++ mkTables n add :: D2) := hshape
+  -- flat lists
+  let U := l0.reverse ++ D1.flatten ++ Lv
+  let TB := D2.flatten
+  have hRO : readOrder (l0 :: (D1 ++ Lv :: D2)) = U ++ TB := by
+    simp [readOrder, U, TB, List.flatten_append, List.append_assoc]
+  have hLvq : Lv.filter (fun t => !rmP rm t) = [] := by
+    rw [List.filter_eq_nil_iff]; intro t ht; simp [hall t ht]
+  have hUq : U.filter (fun t => !rmP rm t) =
+      (l0.filter (fun t => !rmP rm t)).reverse ++ (D1.map (List.filter (fun t => !rmP rm t))).flatten := by
+    simp [U, List.filter_append, List.filter_reverse, List.filter_flatten, hLvq]
+  have hRO' : readOrder (l0.filter (fun t => !rmP rm t) :: (D1.map (List.filter (fun t => !rmP rm t)) ++ mkTables n add :: D2))
+      = U.filter (fun t => !rmP rm t) ++ mkTables n add ++ TB := by
+    rw [hUq]; simp [readOrder, TB, List.flatten_append, List.append_assoc]
+  have hTBp : TB.filter (rmP rm) = [] := by
+    rw [List.filter_eq_nil_iff]; intro t ht; simp [hnone t ht]
+  have hadd : add.flatten = mergeAll ((U.filter (rmP rm)).map (·.run)) := by
+    have := hs.added
+    rw [hRO, List.filter_append, hTBp, List.append_nil] at this
+    exact this
+  have hsortedAll : ∀ t ∈ U ++ TB, SortedRun t.run := by
+    intro t ht; rw [← hRO] at ht; exact hv.sorted t ((readOrder_mem _ t).mp ht)
+  have hsU : ∀ t ∈ U, SortedRun t.run := fun t ht => hsortedAll t (List.mem_append_left _ ht)
+  have hnewer : (U ++ TB).Pairwise NewerT := by rw [← hRO]; exact hv.newer
+  have hnU : U.Pairwise NewerT := (List.pairwise_append.mp hnewer).1
+  have hsafeU : U.Pairwise (SafePair (rmP rm)) := by
+    have h0 := hs.no_kept_below_removed
+    rw [shape_take] at h0
+    have h0' : (l0.reverse ++ D1.flatten).Pairwise (SafePair (rmP rm)) := by
+      simpa [readOrder] using h0
+    refine List.pairwise_append.mpr ⟨h0', ?_, ?_⟩
+    · refine List.Pairwise.imp_of_mem ?_ (List.Pairwise.of_forall (l := Lv) (R := fun _ _ => True) (fun _ _ => trivial))
+      intro a b _ hb _ _ hpb
+      rw [hall b hb] at hpb; cases hpb
+    · intro a _ b hb _ hpb
+      rw [hall b hb] at hpb; cases hpb
+  have hsm : ∀ r ∈ (U.filter (rmP rm)).map (·.run), Run.Sorted r := by
+    intro r hr
+    obtain ⟨x, hx, rfl⟩ := List.mem_map.mp hr
+    exact hsU x (List.mem_filter.mp hx).1
+  have hMsorted : SortedRun add.flatten := by rw [hadd]; exact mergeAll_sorted hsm
+  have hcatnew : cat (mkTables n add) = mergeAll ((U.filter (rmP rm)).map (·.run)) := by
+    rw [cat_mkTables, hadd]
+  have hnewMem : ∀ e ∈ cat (mkTables n add), ∃ r ∈ U, rmP rm r = true ∧ e ∈ r.run := by
+    intro e he
+    rw [hcatnew] at he
+    obtain ⟨r, hr, her⟩ := mem_mergeAll he
+    obtain ⟨x, hx, rfl⟩ := List.mem_map.mp hr
+    exact ⟨x, (List.mem_filter.mp hx).1, (List.mem_filter.mp hx).2, her⟩
+  refine ⟨?_, ?_, ?_, ⟨l0, D1, Lv, D2, rfl, rfl, hL'⟩⟩
+  · intro k
+    rw [hL', hRO', hRO, hit_append, hit_append, hit_append, hit_eq_lookup_cat (mkTables n add), hcatnew]
+    have hc := core_hit (rmP rm) U k hsU hnU hsafeU
+    rw [← hc]
+    cases hit (U.filter (fun t => !rmP rm t)) k with
+    | some e => rfl
+    | none => rfl
+  · rw [hL']
+    refine ⟨?_, ?_, ?_⟩
+    · intro t ht
+      simp only [List.flatten_cons, List.flatten_append, List.mem_append] at ht
+      rcases ht with ht | ht | ht | ht
+      · exact hsU t (by simp [U, (List.mem_filter.mp ht).1])
+      · obtain ⟨l, hl, htl⟩ := List.mem_flatten.mp ht
+        obtain ⟨l', hl', rfl⟩ := List.mem_map.mp hl
+        exact hsU t (by
+          simp only [U, List.mem_append, List.mem_flatten]
+          exact Or.inl (Or.inr ⟨l', hl', (List.mem_filter.mp htl).1⟩))
+      · exact List.Pairwise.sublist (List.sublist_flatten_of_mem (mkTables_run_mem ht)) hMsorted
+      · exact hsortedAll t (List.mem_append_right _ ht)
+    · intro l hl
+      simp only [List.tail_cons, List.mem_append, List.mem_cons] at hl
+      have hdeepOld : ∀ l ∈ D1 ++ Lv :: D2, RangeUnique l := hv.deep
+      rcases hl with hl | hl | hl
+      · obtain ⟨l', hl', rfl⟩ := List.mem_map.mp hl
+        exact (hdeepOld l' (List.mem_append_left _ hl')).sublist List.filter_sublist
+      · subst hl; exact rangeUnique_of_ordered (ordered_new hMsorted hs.chunks)
+      · exact hdeepOld l (List.mem_append_right _ (List.mem_cons_of_mem _ hl))
+    · rw [hRO']
+      exact core_newer (rmP rm) U TB (mkTables n add) hnewer hsafeU (by rw [cat_mkTables]; exact hMsorted) hnewMem
+  · intro t' ht' e he
+    rw [hL'] at ht'
+    have hflat : ∀ t ∈ U ++ TB, t ∈ (l0 :: (D1 ++ Lv :: D2)).flatten := by
+      intro t ht; rw [← hRO] at ht; exact (readOrder_mem _ t).mp ht
+    simp only [List.flatten_cons, List.flatten_append, List.mem_append] at ht'
+    rcases ht' with ht | ht | ht | ht
+    · exact ⟨t', hflat t' (by simp [U, (List.mem_filter.mp ht).1]), he⟩
+    · obtain ⟨l, hl, htl⟩ := List.mem_flatten.mp ht
+      obtain ⟨l', hl', rfl⟩ := List.mem_map.mp hl
+      exact ⟨t', hflat t' (by
+        simp only [U, List.mem_append, List.mem_flatten]
+        exact Or.inl (Or.inl (Or.inr ⟨l', hl', (List.mem_filter.mp htl).1⟩))), he⟩
+    · obtain ⟨r, hr, _, her⟩ := hnewMem e (List.mem_flatMap.mpr ⟨t', ht, he⟩)
+      exact ⟨r, hflat r (List.mem_append_left _ hr), her⟩
+    · exact ⟨t', hflat t' (List.mem_append_right _ ht), he⟩
+
 end Rxn.Compaction
